@@ -44,7 +44,7 @@ def U(node) -> str:
 def is_pure_call(call: ast.Call) -> bool:
     f = call.func
     if isinstance(f, ast.Name):
-        return f.id in PURE_CALLS
+        return f.id in PURE_CALLS or f.id.startswith('__elem')
     if isinstance(f, ast.Attribute):
         return f.attr in PURE_METHODS
     return False
@@ -1085,7 +1085,8 @@ class Evaluator:
                 out.append(p0)
                 continue
             elem = ast.Call(func=ast.Name(id='__elem__', ctx=ast.Load()), args=[it], keywords=[])
-            p0.events.append(Event('for', st, U(it), (), (), len(p0.pc), f'for {U(st.target)} in {U(st.iter)}', stmt=st, depth=p0.depth, value=it))
+            elems = {1: elem}
+            mk = lambda pp, n: pp.events.append(Event('for', st, U(it), (n,), (), len(pp.pc), f'for {U(st.target)} in {U(st.iter)}', stmt=st, depth=pp.depth, value=it))
             # zero iterations (infeasible for a non-empty display, or when the same call-free collection was already
             # seen non-empty on this path)
             ikey = f'<iters {U(it)}>' if not self._has_call(it) else None
@@ -1094,12 +1095,14 @@ class Evaluator:
             if not nonempty and known != 'some':
                 pz = p0.fork()
                 self._count(2)
+                mk(pz, 'zero')
                 if ikey:
                     pz.facts[ikey] = 'zero'
                 pz.pc.append((f'iterations({U(st.iter)})', 0))
                 out.extend(self.block(st.orelse, pz) if st.orelse else [pz])
             if known == 'zero':
                 continue
+            mk(p0, 'some')
             if ikey:
                 p0.facts[ikey] = 'some'
             cur = [p0]
@@ -1107,7 +1110,9 @@ class Evaluator:
                 nxt = []
                 for p in cur:
                     p.pc.append((f'iterations({U(st.iter)})', f'>={k}'))
-                    self.assign_target(st.target, elem, p, st)
+                    if k not in elems:   # a later iteration sees a different element
+                        elems[k] = ast.Call(func=ast.Name(id=f'__elem{k}__', ctx=ast.Load()), args=[it], keywords=[])
+                    self.assign_target(st.target, elems[k], p, st)
                     for q in self.block(st.body, p):
                         o = q.outcome
                         if o is None or o[0] == 'continue':
